@@ -3,7 +3,7 @@ implementation-only oracle: what coap_print_wellknown printed into a large buffe
 listing of the registered resources restricted by the filter).
 
 Case line (see harness/h_link.c):
-  wk|lk <i>  { R <path> <flags> <nattr> { <name> <val> }* | D <path> }*  F <filter>  W all | W list {off len}*
+  lfwk|lflk <i>  { R <path> <flags> <nattr> { <name> <val> }* | D <path> }*  F <filter>  W all | W list {off len}*
 """
 
 WK = b".well-known/core"
